@@ -3,17 +3,17 @@
 import json, sys
 CHECKS = {
  "C20": dict(level="exploration", design="4/C20",
-   text="Metamorphic determinism check over the inputs of C06/C07/C08/C14/C16 (GDSII hierarchies, raw libraries with multi-layer abstract ports/blockages, LEF libraries with several layers per pin, gridded cells with abstract views): each input description is materialised 6 times in one process (fresh hash maps, hence fresh per-map hash keys) and in 3 separate child processes (fresh per-process keys), converted (GDSII->raw, raw->GDSII, raw->protobuf, LEF->raw->LEF, gridded->raw->GDSII/protobuf) and rendered to a transcript preserving every sequence order (GDSII timestamps masked); all transcripts must be identical.",
+   text="Metamorphic determinism check over the inputs of C06/C07/C08/C14/C16 (GDSII hierarchies, raw libraries with multi-layer abstract ports/blockages, LEF libraries with several layers per pin and repeated macro names, gridded cells with abstract views and raw-defined cells; also Layer objects sharing a number, shorted nets, nameless libraries): each input description is materialised 6 times in one process (fresh hash maps, hence fresh per-map hash keys) and in 3 separate child processes (fresh per-process keys), converted (GDSII->raw, raw->GDSII, raw->protobuf, LEF->raw->LEF, gridded->raw->GDSII/protobuf) and rendered to a transcript preserving every sequence order (GDSII timestamps masked); all transcripts must be identical.",
    note="Hash seeds cannot be chosen, so detection is probabilistic per input (>= 1 - 2^-5 for a two-key map in-process) but effectively certain over hundreds of inputs; a deterministic tree can never fail the check.",
    technique="property-based testing with a metamorphic oracle (repeated materialisation in-process and across child processes)"),
 
  "C08": dict(level="exploration", design="4/C08",
-   text="Seeded proptest search over a family of layer stacks (1-4 metals alternating direction, rails/signals/gaps written flat or with Repeat groups, offsets, overlapping rails, with/without every-other-period flipping, palindromic and asymmetric patterns, pitch 1-3 primitive pitches) crossed with well-formed cells (outlines of whole periods, cuts and assignments at in-range crossings, leaf instances in all four reflections aligned to periods; 1 in 12 outlines deliberately not whole periods: error required). Oracle R-tracks computed from the stack description alone: per layer and track the wire pieces, requested cuts and true instance extents tile [0, span] exactly, nothing else on the layer; one via of the stack's size centred on each assigned crossing carrying the net; nets on exactly the covering pieces; rails VDD/VSS.",
+   text="Seeded proptest search over a family of layer stacks (1-4 metals alternating direction, rails/signals/gaps written flat or with Repeat groups, offsets, overlapping rails, with/without every-other-period flipping, palindromic and asymmetric patterns, pitch 1-3 primitive pitches) via layers listed in any order) crossed with well-formed cells (outlines of whole periods, cuts and assignments at in-range crossings, leaf instances incl. zero-metal cells in all four reflections aligned to periods; 1 in 12 outlines deliberately not whole periods: error required; a third sub-check issues cut requests over the outline edge or over each other: refused or realised, never ignored). Oracle R-tracks computed from the stack description alone: per layer and track the wire pieces, requested cuts and true instance extents tile [0, span] exactly, nothing else on the layer; one via of the stack's size centred on each assigned crossing carrying the net; nets on exactly the covering pieces; rails VDD/VSS.",
    note="Non-rectangular outlines, odd widths/cut/via sizes, instances not aligned to whole periods and abstract ports are not generated. Tracks are numbered in the order their period lists them.",
    technique="property-based testing against an independent track/segment reference model (tiling validity predicate)"),
 
  "C09": dict(level="exploration", design="4/C09",
-   text="The single-relation table (4 sides x 2 orthogonal alignments x 4 x 4 reflections x 3 separation kinds = 384) exhaustively; seeded proptest search over placement programs of 1-25 instances (chains and trees, relabelled and shuffled, each placed in two listing orders), cyclic programs (must be errors) and absolute array instances (count 1-6, pitch in x/y, both reflections, nesting depth <= 3). Oracle: bounding-box model of the relation computed from (location, cell size, reflections), required to equal Instance::boundbox(); reference expansion for arrays.",
+   text="The single-relation table (4 sides x 2 orthogonal alignments x 4 x 4 reflections x 3 separation kinds = 384) exhaustively; seeded proptest search over placement programs of 1-25 instances (chains and trees over rectangular and two-step outlines, relabelled and shuffled, each placed in two listing orders; some instances handed over through Layout::places; the program cell listed, listed after its user, or reachable only through an instance; a twin cell with shifted roots in the same library must be placed identically), cyclic programs (must be errors) and absolute array instances (count 1-6, pitch in x/y, both reflections, nesting depth <= 3). Oracle: bounding-box model of the relation computed from (location, cell size, reflections), required to equal Instance::boundbox(); reference expansion for arrays.",
    note="Non-orthogonal side/alignment pairs, Center/Ports alignment, placement relative to arrays/groups, relative array placement are unimplemented in the code and outside the quantifier.",
    technique="exhaustive table + property-based testing against a reference placement model; order-independence as a metamorphic relation"),
  "C19": dict(level="exploration", design="4/C19",
@@ -27,12 +27,12 @@ CHECKS = {
    technique="property-based testing: round-trip oracle in both directions plus a dependency-order validity predicate"),
 
  "C18": dict(level="exploration", design="4/C18",
-   text="Seeded proptest search over GDSII and LEF library values whose string fields are replaced by strings built from JSON/YAML-special characters and whose doubles span the GDSII range, crossed with {JSON, YAML} x {to_string/from_str, save/open}; GDSII file -> to_markup -> from_markup -> GDSII bytes; sweeps of 16 doubles per case. Oracle: loaded value equal to the original with doubles compared by bit pattern, decimals by value; bytes identical.",
+   text="Seeded proptest search over GDSII and LEF library values whose string fields are replaced by strings built from JSON/YAML-special characters and whose doubles span the GDSII range, crossed with {JSON, YAML} x {to_string/from_str, save/open in all three spellings (format method, SerdeFile, free function) on plain, dot and extension file names}; GDSII file -> to_markup -> from_markup -> GDSII bytes (quiet and chatty modes, unset time stamps); histories of several saves to one path; sweeps of 16 doubles per case. Oracle: loaded value equal to the original with doubles compared by bit pattern, decimals by value; bytes identical.",
    note="TOML not in the property. The harness adds no serde_json/rust_decimal/serde_yaml feature beyond the repository's own.",
    technique="property-based testing: serialise/deserialise round-trip oracle with bit-exact comparison"),
 
  "C11": dict(level="fault_enumeration", design="4/C11",
-   text="Exhaustive fault enumeration over 40 rendered LEF texts (with and without lexical variation / non-ASCII comments) and the repository's macro.lef: every prefix at every character boundary, every single-token fault (delete, duplicate, swap, replace by 21 keywords/numbers/punctuation/unterminated string) at every token; proptest-driven insertion of multi-byte, odd-whitespace (VT, NEL, NBSP, EM SPACE, BOM, NUL) and delimiter characters anywhere; token soup with arbitrary Unicode scalars. Oracle: LefLibrary::open returns, also on its error-report path (panics caught in-process, aborts/hangs by the supervising process with CPU limit); an Ok library can be written and re-read without a crash; allocation at most doubles when the input doubles.",
+   text="Exhaustive fault enumeration over 40 rendered LEF texts (with and without lexical variation / non-ASCII comments) and the repository's macro.lef: every prefix at every character boundary, every single-token fault (delete, duplicate, swap, replace by 27 keywords/numbers incl. the extremes of the 96-bit decimal type/punctuation/unterminated string) at every token; floods of 50 000 copies of a token or phrase read on a 2 MB stack; proptest-driven insertion of multi-byte, odd-whitespace (VT, NEL, NBSP, EM SPACE, BOM, NUL) and delimiter characters anywhere; token soup with arbitrary Unicode scalars. Oracle: LefLibrary::open returns, also on its error-report path (panics caught in-process, aborts/hangs by the supervising process with CPU limit); an Ok library can be written and re-read without a crash; allocation at most doubles when the input doubles.",
    note="Termination = returns before the 30 s in-flight watchdog / 20 s CPU in isolation; linear time approximated by allocation volume.",
    technique="fault enumeration + property-based mutation; crash/hang oracle via supervised child processes"),
  "C16": dict(level="exploration", design="4/C16",
@@ -54,12 +54,12 @@ CHECKS = {
    note="An import error on a well-formed library is allowed by the statement (counted as refused). MAG != 1, absolute flags, nodes, two different labels on one shape not generated.",
    technique="property-based testing against an independent reference flattener and exact geometry (differential oracle)"),
  "C07": dict(level="exploration", design="4/C07",
-   text="Seeded proptest search over raw layout libraries (cell DAGs in shuffled order, eight instance orientations, rectangles, U/L/histogram/45-degree/star/trapezoid polygons, Manhattan paths, nets, many layers/purposes, all four units): export to GDSII must succeed, exported paths keep exactly their points and every emitted label lies in its shape (exact geometry on the GDSII itself), and re-import gives per cell the same multisets of shapes (layer number, purpose number, points, width, lower-cased net) and instances (target, location, reflection, angle) and the same units.",
+   text="Seeded proptest search over raw layout libraries (cell DAGs in shuffled order, eight instance orientations, rectangles, U/L/histogram/45-degree/star/trapezoid polygons, Manhattan paths, nets, many layers/purposes incl. purposes sharing a number, abstract views beside layouts, empty cells, all four units): export to GDSII must succeed (the documented label-search refusal is accepted only when none of its candidates lies inside the polygon), exported paths keep exactly their points and every emitted label lies in its shape (exact geometry on the GDSII itself), and re-import gives per cell the same multisets of shapes (layer number, purpose number, points, width, lower-cased net) and instances (target, location, reflection, angle) and the same units.",
    note="Cell order, rectangle corner order, rectangle-shaped polygons, None vs Some(0) angle, annotations and instance names are not compared; 'No valid label location' for a non-rectilinear named polygon is the documented refusal.",
    technique="property-based testing: export/import round-trip oracle plus exact-geometry validity predicates on the exported GDSII"),
 
  "C17": dict(level="exploration", design="4/C17",
-   text="Generic helper: every digraph on 1-4 nodes incl. self-loops x every listing order x every non-empty start subset (exhaustive, 23.6 M orderings), every 5-node digraph without self-loops x 8 listing orders (exhaustive in thorough, 800 k sampled in quick), random graphs to 300 nodes incl. depth-300 chains. Embedded orderers through their public callers (raw::DepOrder::order, Library::from_gds, tetris Library::dep_order, tetris ProtoExporter::export, Placer::place) on random DAGs and cyclic graphs up to 200 nodes. Oracle: graph model - reachable set, Kahn cycle test, validity predicate accepting any topological order; cyclic => error required.",
+   text="Generic helper: every digraph on 1-4 nodes incl. self-loops x every listing order x every non-empty start subset (exhaustive, 23.6 M orderings), every 5-node digraph without self-loops x 8 listing orders (exhaustive in thorough, 800 k sampled in quick), random graphs to 300 nodes incl. depth-300 chains. Embedded orderers through their public callers (raw::DepOrder::order, Library::from_gds, tetris Library::dep_order, tetris ProtoExporter::export, Placer::place over relative placements and over the cell graph) on random DAGs and cyclic graphs up to 200 nodes, with repeated children, layout-less leaf cells and cells with both views. Oracle: graph model - reachable set, Kahn cycle test, validity predicate accepting any topological order; cyclic => error required.",
    note="Unbounded recursion is observed as the death of the checking process (re-run in isolation by the supervisor).",
    technique="exhaustive enumeration of small digraphs + property-based testing against a graph reference model (validity predicate)"),
 
@@ -73,11 +73,11 @@ CHECKS = {
    technique="exhaustive enumeration + property-based testing against an exact integer geometry kernel"),
 
  "C01": dict(level="exploration", design="4/C01",
-   text="Seeded proptest search over constructed GDSII library values (all seven element kinds, every optional-field subset, empty/odd/non-ASCII strings, full-range coordinates, in-range reals, records straddling the 16-bit limit): write, read back, compare field for field; 1 in 16 through save/open on a file; hand-written boundary libraries as regression inputs.",
+   text="Seeded proptest search over constructed GDSII library values (all seven element kinds, every optional-field subset, empty/odd/non-ASCII strings, full-range coordinates, reals over the whole representable range incl. exponent byte 0, legal records around 32 KB and just below the 16-bit limit, records beyond it): write, read back, compare field for field; 1 in 16 through save/open over an older longer file, 1 in 8 through a writer that accepts a few bytes per call; hand-written boundary libraries as regression inputs.",
    note="Round-trip oracle (inverse); symmetric reader/writer errors are C02/C03's business. Strings without NUL; reals within the format's range.",
    technique="property-based testing (proptest over choice sequences, shrinking): write/read round-trip oracle"),
  "C02": dict(level="exploration", design="4/C02",
-   text="Same generated libraries; the written bytes are decoded by an independent strict GDSII decoder written from the specification (record numbering, data types, fixed payload sizes, BNF order, big-endian, normalised exact reals, STRANS bits, NUL padding, ENDLIB last) and the decoded content must equal the generated model.",
+   text="Same generated libraries; the written bytes are decoded by an independent strict GDSII decoder written from the specification (record numbering, data types, fixed payload sizes, BNF order, big-endian, normalised exact reals, STRANS bits, NUL padding, ENDLIB last) and the decoded content must equal the generated model; 1 in 16 libraries also through save() over an older longer file, whose content must be exactly the stream.",
    note="Trusted base: harness/src/refmodel/gdsspec.rs and gdsreal.rs as the reading of the Calma specification.",
    technique="property-based testing: differential oracle against an independent specification decoder"),
  "C03": dict(level="exploration", design="4/C03",
@@ -85,7 +85,7 @@ CHECKS = {
    note="Trusted base: the reference encoder in harness/src/refmodel/gdsspec.rs. Conformant = records in BNF order.",
    technique="property-based testing: differential oracle, reference encoder -> reader under test"),
  "C10": dict(level="fault_enumeration", design="4/C10",
-   text="Exhaustive fault enumeration over 30 generated and 3 repository streams: every truncation point (must be rejected before ENDLIB), every single-record fault (length/type/datatype rewrites, empty payload, delete/duplicate/swap/splice) at every record, extreme and unnormalised reals, plus proptest-driven byte mutations and noise. Oracle: the call returns (panics caught in-process; aborts and hangs caught by a supervising process with CPU limit), and any returned library re-writes and re-reads to itself; allocation volume at most doubles when the input doubles.",
+   text="Exhaustive fault enumeration over 30 generated and 3 repository streams: every truncation point (must be rejected before ENDLIB), every single-record fault (length/type/datatype rewrites, empty payload, delete/duplicate/swap/splice) at every record, a well-formed record of each of the 64 record types x 11 payload shapes inserted at every record boundary, floods of 100 000 copies of such a record read on a 2 MB stack, a stream with a 32 KB record, extreme and unnormalised reals, plus proptest-driven byte mutations and noise. Oracle: the call returns (panics caught in-process; aborts, spinning and blocked calls caught by a supervising process with CPU limit and idle detection), a truncated stream is never accepted, and any returned library re-writes and re-reads to itself; allocation volume at most doubles when the input doubles.",
    note="Termination = returns before the hang watchdog / 60 s CPU; linear time approximated by allocation volume. Repository files are faulted at every 9th record in the quick tier, every record in thorough.",
    technique="fault enumeration + property-based byte mutation; crash/hang oracle via supervised child processes; re-write round-trip oracle"),
 
